@@ -283,6 +283,127 @@ def walk():
 
 
 # --------------------------------------------------------------------------
+# first / nullable / follow table
+#
+# Mirrors `infoOf` of lean/BacVerif/Model/SchemaWF.lean.  The table is only a
+# CERTIFICATE: `wfEnv env info` re-computes every entry in Lean
+# (`look I τ == infoOf env I d`) and the kernel checks the equality, so a
+# mistake here makes `gen_env_wf` fail, it cannot make it pass.  (Letting the
+# kernel build the table itself with `mkInfo` takes 15 minutes.)
+
+ANYTAG, ANYAPP = ("anyTag",), ("anyApp",)
+BAD_INFO = {"first": [], "nullable": False, "confus": [ANYTAG], "sup": False}
+
+
+def _kind(ref):
+    """kindOf: prim / anyAtomic / seqOf / listOf / struct"""
+    if ref.k != "ty":
+        return ref.k
+    n = ref.node
+    if n.k == "list" and n.lk == "seqof":
+        return "seqOf"
+    if n.k == "list" and n.lk == "listof":
+        return "listOf"
+    return "struct"
+
+
+def info_table(sch):
+    I = []
+
+    def look(ref):
+        j = ref.node.idx
+        return I[j] if j < len(I) else BAD_INFO
+
+    def field_first(f):
+        k = _kind(f.ref)
+        if k == "prim":
+            return [("ctx", f.ctx)] if f.ctx is not None else [("app", f.ref.app)]
+        if k == "anyAtomic":
+            return [ANYAPP]
+        if f.ctx is not None:
+            return [("opening", f.ctx)]
+        return list(look(f.ref)["first"])
+
+    def field_nullable(f):
+        if f.opt:
+            return True
+        if _kind(f.ref) in ("seqOf", "listOf", "struct") and f.ctx is None:
+            return look(f.ref)["nullable"]
+        return False
+
+    def field_confus(f):
+        k = _kind(f.ref)
+        if k == "seqOf" and f.ctx is not None:
+            return [ANYTAG] if f.opt else []
+        if k in ("seqOf", "listOf", "struct") and f.ctx is None:
+            return (list(look(f.ref)["first"]) if f.opt else []) + list(look(f.ref)["confus"])
+        return field_first(f) if f.opt else []
+
+    def field_sup(f):
+        k = _kind(f.ref)
+        if k in ("prim", "anyAtomic"):
+            return True
+        if f.ctx is not None:
+            return look(f.ref)["sup"]
+        return look(f.ref)["sup"] and not f.opt
+
+    def alt_sup(f):
+        k = _kind(f.ref)
+        if k == "prim":
+            return True
+        if k in ("seqOf", "listOf", "struct") and f.ctx is not None:
+            return look(f.ref)["sup"]
+        return False
+
+    def first_fields(fs):
+        out = []
+        for f in fs:
+            out += field_first(f)
+            if not field_nullable(f):
+                break
+        return out
+
+    def confus_fields(fs):
+        out = []
+        for i, f in enumerate(fs):
+            if all(field_nullable(g) for g in fs[i + 1:]):
+                out += field_confus(f)
+        return out
+
+    for n in sch.nodes:
+        if n.k == "seq":
+            inf = {"first": first_fields(n.fields), "nullable": all(field_nullable(f) for f in n.fields),
+                   "confus": confus_fields(n.fields), "sup": all(field_sup(f) for f in n.fields)}
+        elif n.k == "choice":
+            inf = {"first": [p for f in n.fields for p in field_first(f)], "nullable": False, "confus": [],
+                   "sup": all(alt_sup(f) for f in n.fields)}
+        elif n.k == "list":
+            k = _kind(n.elem)
+            first = [("app", n.elem.app)] if k == "prim" else [ANYAPP] if k == "anyAtomic" else list(look(n.elem)["first"])
+            sup = True if k == "prim" else False if k == "anyAtomic" else look(n.elem)["sup"]
+            inf = {"first": first, "nullable": not (n.fixed is not None and n.fixed > 0), "confus": [ANYTAG], "sup": sup}
+        elif n.k == "any":
+            inf = {"first": [ANYTAG], "nullable": True, "confus": [ANYTAG], "sup": True}
+        elif n.k == "nameValue":
+            inf = {"first": [("ctx", 0)], "nullable": False, "confus": [ANYAPP], "sup": False}
+        else:
+            raise SchemaError(n.k)
+        I.append(inf)
+    return I
+
+
+def lean_pat(p):
+    return ".%s" % p[0] if len(p) == 1 else ".%s %d" % p
+
+
+def lean_info(inf):
+    return "⟨[%s], %s, [%s], %s⟩" % (", ".join(lean_pat(p) for p in inf["first"]),
+                                     "true" if inf["nullable"] else "false",
+                                     ", ".join(lean_pat(p) for p in inf["confus"]),
+                                     "true" if inf["sup"] else "false")
+
+
+# --------------------------------------------------------------------------
 # Lean rendering
 
 
@@ -301,9 +422,9 @@ def to_lean(sch):
     L.append("  (sequenceElements / choiceElements / SequenceOf-ListOf-ArrayOf factories /")
     L.append("  service registries of py34/bacpypes).  DO NOT EDIT — regenerated on every run.")
     L.append("-/")
-    L.append("import BacVerif.Model.Schema")
+    L.append("import BacVerif.Model.SchemaWF")
     L.append("namespace BacVerif.Gen.Schemas")
-    L.append("open BacVerif.Schema")
+    L.append("open BacVerif.Schema BacVerif.SchemaWF")
     L.append("")
     L.append("def env : Array TyDef := #[")
     rows = []
@@ -320,6 +441,12 @@ def to_lean(sch):
             raise SchemaError(n.k)
         rows.append("  /- %3d %s -/ %s" % (n.idx, n.name, body))
     L.append(",\n".join(rows))
+    L.append("]")
+    L.append("")
+    L.append("/-- first / nullable / follow / in-proved-fragment per type: a certificate that")
+    L.append("    `wfEnv env info` re-checks entry by entry against `infoOf` -/")
+    L.append("def info : Table := #[")
+    L.append(",\n".join("  /- %3d -/ %s" % (n.idx, lean_info(inf)) for n, inf in zip(sch.nodes, info_table(sch))))
     L.append("]")
     L.append("")
     L.append("/-- type names, same indexing as `env` (evidence only) -/")
